@@ -101,38 +101,46 @@ Record lexst := {
   l_next : nat;                      (* next buffer id *)
   l_q : qbuf;
   l_inc : list incframe;             (* include stack, innermost first *)
-  l_echo : list byte                 (* bytes the default rule wrote to stdout, most recent first *)
+  l_echo : list byte;                (* bytes the default rule wrote to stdout, most recent first *)
+  l_rderr : bool                     (* cfg_input_failed: the current stream reported a read error *)
 }.
 
 Definition lex_init : lexst :=
-  {| l_sc := INITIAL; l_bufs := []; l_next := 0; l_q := q_empty; l_inc := []; l_echo := [] |}.
+  {| l_sc := INITIAL; l_bufs := []; l_next := 0; l_q := q_empty; l_inc := []; l_echo := []; l_rderr := false |}.
 
 Definition set_sc (s : lexst) (c : sc) : lexst :=
-  {| l_sc := c; l_bufs := l_bufs s; l_next := l_next s; l_q := l_q s; l_inc := l_inc s; l_echo := l_echo s |}.
+  {| l_sc := c; l_bufs := l_bufs s; l_next := l_next s; l_q := l_q s; l_inc := l_inc s; l_echo := l_echo s; l_rderr := l_rderr s |}.
 Definition set_q (s : lexst) (q : qbuf) : lexst :=
-  {| l_sc := l_sc s; l_bufs := l_bufs s; l_next := l_next s; l_q := q; l_inc := l_inc s; l_echo := l_echo s |}.
+  {| l_sc := l_sc s; l_bufs := l_bufs s; l_next := l_next s; l_q := q; l_inc := l_inc s; l_echo := l_echo s; l_rderr := l_rderr s |}.
 Definition set_bufs (s : lexst) (b : list (nat * list byte)) : lexst :=
-  {| l_sc := l_sc s; l_bufs := b; l_next := l_next s; l_q := l_q s; l_inc := l_inc s; l_echo := l_echo s |}.
+  {| l_sc := l_sc s; l_bufs := b; l_next := l_next s; l_q := l_q s; l_inc := l_inc s; l_echo := l_echo s; l_rderr := l_rderr s |}.
 Definition set_inc (s : lexst) (i : list incframe) : lexst :=
-  {| l_sc := l_sc s; l_bufs := l_bufs s; l_next := l_next s; l_q := l_q s; l_inc := i; l_echo := l_echo s |}.
+  {| l_sc := l_sc s; l_bufs := l_bufs s; l_next := l_next s; l_q := l_q s; l_inc := i; l_echo := l_echo s; l_rderr := l_rderr s |}.
 Definition add_echo (s : lexst) (c : byte) : lexst :=
-  {| l_sc := l_sc s; l_bufs := l_bufs s; l_next := l_next s; l_q := l_q s; l_inc := l_inc s; l_echo := c :: l_echo s |}.
+  {| l_sc := l_sc s; l_bufs := l_bufs s; l_next := l_next s; l_q := l_q s; l_inc := l_inc s; l_echo := c :: l_echo s; l_rderr := l_rderr s |}.
 Definition clear_echo (s : lexst) : lexst :=
-  {| l_sc := l_sc s; l_bufs := l_bufs s; l_next := l_next s; l_q := l_q s; l_inc := l_inc s; l_echo := [] |}.
+  {| l_sc := l_sc s; l_bufs := l_bufs s; l_next := l_next s; l_q := l_q s; l_inc := l_inc s; l_echo := []; l_rderr := l_rderr s |}.
 
 (* cfg_scan_fp_begin: BEGIN(INITIAL); push a new buffer reading `inp` *)
 Definition scan_begin (s : lexst) (inp : list byte) : lexst :=
   {| l_sc := INITIAL; l_bufs := (l_next s, inp) :: l_bufs s; l_next := S (l_next s);
-     l_q := l_q s; l_inc := l_inc s; l_echo := l_echo s |}.
+     l_q := l_q s; l_inc := l_inc s; l_echo := l_echo s; l_rderr := false |}.
+
+(* a stream whose first read fails (a directory): no data, the failure is pending *)
+Definition scan_begin_failing (s : lexst) : lexst :=
+  {| l_sc := INITIAL; l_bufs := (l_next s, []) :: l_bufs s; l_next := S (l_next s);
+     l_q := l_q s; l_inc := l_inc s; l_echo := l_echo s; l_rderr := true |}.
+Definition clear_rderr (s : lexst) : lexst :=
+  {| l_sc := l_sc s; l_bufs := l_bufs s; l_next := l_next s; l_q := l_q s; l_inc := l_inc s; l_echo := l_echo s; l_rderr := false |}.
 
 (* cfg_scan_fp_end: free the scratch buffer; pop the current buffer *)
 Definition scan_end (s : lexst) : lexst :=
   {| l_sc := l_sc s; l_bufs := tl (l_bufs s); l_next := l_next s;
-     l_q := q_empty; l_inc := l_inc s; l_echo := l_echo s |}.
+     l_q := q_empty; l_inc := l_inc s; l_echo := l_echo s; l_rderr := l_rderr s |}.
 
 (* cfg_yylex_destroy: everything back to the initial state (echo is not scanner state) *)
 Definition lex_destroy (s : lexst) : lexst :=
-  {| l_sc := INITIAL; l_bufs := []; l_next := l_next s; l_q := l_q s; l_inc := l_inc s; l_echo := l_echo s |}.
+  {| l_sc := INITIAL; l_bufs := []; l_next := l_next s; l_q := l_q s; l_inc := l_inc s; l_echo := l_echo s; l_rderr := l_rderr s |}.
 
 Definition cur_buf_id (s : lexst) : option nat :=
   match l_bufs s with [] => None | (id, _) :: _ => Some id end.
@@ -244,6 +252,7 @@ Definition run_eof (a : option eof_action) (s : lexst) (p : pos) : outcome * nat
   | Some E_unterminated => (Return TErr None s p [mkdiag p "unterminated %s"], 0%nat)
   | Some (E_unrecognised _) => (Return TErr None s p [mkdiag p "<unrecognised action>"], 0%nat)
   | Some E_pop_or_eof =>
+      if l_rderr s then (Return TErr None (clear_rderr s) p [mkdiag p "read error"], 0%nat) else
       match l_inc s with
       | [] => (Return TEof None s p [], 0%nat)
       | f :: rest =>
